@@ -806,7 +806,12 @@ bool SoPlexBase<R>::getDualReal(R* p_vector, int dim) // For SCIP
    {
       _syncRealSolution();
       auto& dual = _solReal._dual;
-      std::copy(dual.begin(), dual.end(), p_vector);
+
+      // the stored vector can be longer than the LP (solution of a transformed LP): never write more than numRows() values
+      if(dual.dim() < numRows())
+         return false;
+
+      std::copy(dual.begin(), dual.begin() + numRows(), p_vector);
 
       return true;
    }
@@ -825,7 +830,12 @@ bool SoPlexBase<R>::getRedCostReal(R* p_vector, int dim) // For SCIP compatibili
    {
       _syncRealSolution();
       auto& redcost = _solReal._redCost;
-      std::copy(redcost.begin(), redcost.end(), p_vector);
+
+      // the stored vector can be longer than the LP (solution of a transformed LP): never write more than numCols() values
+      if(redcost.dim() < numCols())
+         return false;
+
+      std::copy(redcost.begin(), redcost.begin() + numCols(), p_vector);
 
       return true;
    }
@@ -1146,7 +1156,12 @@ bool SoPlexBase<R>::getPrimalReal(R* p_vector, int size)
       _syncRealSolution();
 
       auto& primal = _solReal._primal;
-      std::copy(primal.begin(), primal.end(), p_vector);
+
+      // the stored vector can be longer than the LP (solution of a transformed LP): never write more than numCols() values
+      if(primal.dim() < numCols())
+         return false;
+
+      std::copy(primal.begin(), primal.begin() + numCols(), p_vector);
 
       return true;
    }
@@ -3858,7 +3873,12 @@ bool SoPlexBase<R>::getSlacksReal(R* p_vector, int dim)
       _syncRealSolution();
 
       auto& slacks = _solReal._slacks;
-      std::copy(slacks.begin(), slacks.end(), p_vector);
+
+      // the stored vector can be longer than the LP (solution of a transformed LP): never write more than numRows() values
+      if(slacks.dim() < numRows())
+         return false;
+
+      std::copy(slacks.begin(), slacks.begin() + numRows(), p_vector);
 
       return true;
    }
